@@ -34,15 +34,29 @@ open Spec Actor Tables
 
 /-! ## how a request changes the tables: not at all, by one store operation, or in the authors only -/
 
-inductive TStep (t : T) : T → Prop
-  | same : TStep t t
-  | op (o : TOp) (h : o.Ok) : TStep t (applyOp t o)
-  | authors (l : List (Bytes × Bytes)) : TStep t { t with authors := l }
+/-- the store operation a request may perform -/
+def Req.tops : Req → List TOp
+  | .create ns raw => [.importNs ns 1 raw]
+  | .importNs ns kind raw => [.importNs ns kind raw]
+  | .dropDoc ns => [.remove ns]
+  | .setHash _ e => [.put e]
+  | .setPolicy ns p => [.policy ns p]
+  | .registerPeer ns nanos peer => [.peer ns nanos peer]
+  | _ => []
+
+inductive TStepIn (ops : List TOp) (t : T) : T → Prop
+  | same : TStepIn ops t t
+  | op (o : TOp) (h : o ∈ ops) : TStepIn ops t (applyOp t o)
+  | authors (l : List (Bytes × Bytes)) : TStepIn ops t { t with authors := l }
 
 def Req.wf : Req → Prop
   | .setHash _ e => Wf e
   | .dropDoc ns => ns.length = 32
   | _ => True
+
+theorem Req.tops_ok (r : Req) (hw : r.wf) : ∀ o ∈ r.tops, o.Ok := by
+  cases r <;> simp only [Req.tops, List.mem_singleton, List.not_mem_nil, false_imp_iff, implies_true, forall_eq] <;>
+    first | trivial | exact hw
 
 theorem closeR_t (s : AState) (ns : Bytes) : (closeR s ns).1.t = s.t := by
   unfold closeR
@@ -152,5 +166,918 @@ theorem leaveL_t (s : NState) (ns : Bytes) : (leaveL s ns).1.a.t = s.a.t := by
   · rfl
 
 theorem prune_a (s : NState) : (prune s).a = s.a := rfl
+
+
+theorem withA_t (s : NState) (p : AState × Actor.Reply) : (withA s p).1.a.t = p.1.t := rfl
+
+theorem foldl_unsubscribe_t (l : List (Nat × Bytes × Bool)) (a : AState) (ns : Bytes) :
+    (l.foldl (fun a _ => (Actor.step a (.unsubscribe ns)).1) a).t = a.t := by
+  induction l generalizing a with
+  | nil => rfl
+  | cons x xs ih => simp only [List.foldl_cons]; rw [ih, step_unsubscribe_t]
+
+theorem importThenOpen_t (s : NState) (ns : Bytes) (kind : Nat) (raw : Bytes) :
+    (importThenOpen s ns kind raw).1.a.t = (importNamespace s.a.t ns kind raw).1 := by
+  have h := step_import_t s.a ns kind raw
+  unfold importThenOpen
+  split
+  · rename_i a1 heq
+    rw [heq] at h
+    rw [withA_t, step_openR_t]; exact h
+  · rename_i p _
+    rw [withA_t]; exact h
+
+theorem stepRaw_tstep (s : NState) (r : Req) : TStepIn r.tops s.a.t (stepRaw s r).1.a.t := by
+  cases r with
+  | create ns raw =>
+    simp only [stepRaw]; rw [importThenOpen_t]; exact TStepIn.op (.importNs ns 1 raw) (by simp [Req.tops])
+  | importNs ns kind raw =>
+    simp only [stepRaw]; rw [importThenOpen_t]; exact TStepIn.op (.importNs ns kind raw) (by simp [Req.tops])
+  | openDoc ns => simp only [stepRaw]; rw [withA_t, step_openR_t]; exact TStepIn.same
+  | closeDoc ns => simp only [stepRaw]; rw [step_close_t]; exact TStepIn.same
+  | status ns => simp only [stepRaw]; rw [withA_t, step_getState_t]; exact TStepIn.same
+  | dropDoc ns =>
+    simp only [stepRaw]
+    have hl := leaveL_t s ns
+    split
+    · rename_i s1 heq
+      rw [heq] at hl
+      rw [withA_t]
+      simp only at hl
+      rcases step_drop_t s1.a ns with h | h
+      · rw [h, hl]; exact TStepIn.same
+      · rw [h, hl]; exact TStepIn.op (.remove ns) (by simp [Req.tops])
+    · rename_i s1 r1 _ heq
+      rw [heq] at hl
+      show TStepIn _ s.a.t s1.a.t
+      rw [hl]; exact TStepIn.same
+  | setHash ns e =>
+    simp only [stepRaw]
+    cases authorGet s.a.t e.author with
+    | none => exact TStepIn.same
+    | some _ =>
+      simp only
+      rcases step_insertLocal_t s.a ns e with h | h
+      · split
+        · rename_i a' n heq
+          rw [heq] at h
+          show TStepIn _ s.a.t (List.foldl _ a' _).t
+          rw [foldl_unsubscribe_t]; simp only at h; rw [h]; exact TStepIn.same
+        · rename_i a' r _ heq
+          rw [heq] at h
+          show TStepIn _ s.a.t a'.t
+          simp only at h; rw [h]; exact TStepIn.same
+      · split
+        · rename_i a' n heq
+          rw [heq] at h
+          show TStepIn _ s.a.t (List.foldl _ a' _).t
+          rw [foldl_unsubscribe_t]; simp only at h; rw [h]; exact TStepIn.op (.put e) (by simp [Req.tops])
+        · rename_i a' r _ heq
+          rw [heq] at h
+          show TStepIn _ s.a.t a'.t
+          simp only at h; rw [h]; exact TStepIn.op (.put e) (by simp [Req.tops])
+  | getExact ns a k i => simp only [stepRaw]; rw [withA_t, step_getExact_t]; exact TStepIn.same
+  | getMany ns q => simp only [stepRaw]; cases getOpen s.a ns <;> exact TStepIn.same
+  | setPolicy ns p =>
+    simp only [stepRaw]
+    cases h : Tables.setDownloadPolicy s.a.t ns p with
+    | none => exact TStepIn.same
+    | some t' =>
+      have : t' = applyOp s.a.t (.policy ns p) := by simp [applyOp, h]
+      show TStepIn _ s.a.t t'
+      rw [this]; exact TStepIn.op _ (by simp [Req.tops])
+  | getPolicy ns => exact TStepIn.same
+  | getSyncPeers ns => simp only [stepRaw]; cases getOpen s.a ns <;> exact TStepIn.same
+  | registerPeer ns nanos peer =>
+    simp only [stepRaw]
+    cases h : Tables.registerUsefulPeer s.a.t ns nanos peer with
+    | none => exact TStepIn.same
+    | some t' =>
+      have : t' = applyOp s.a.t (.peer ns nanos peer) := by simp [applyOp, h]
+      show TStepIn _ s.a.t t'
+      rw [this]; exact TStepIn.op _ (by simp [Req.tops])
+  | startSync ns => simp only [stepRaw]; rw [startSyncL_t]; exact TStepIn.same
+  | leave ns => simp only [stepRaw]; rw [leaveL_t]; exact TStepIn.same
+  | share ns write =>
+    simp only [stepRaw]
+    split
+    · split
+      · have := startSyncL_t s ns
+        split <;> (rename_i heq; rw [heq] at this; simp only at this ⊢; rw [this]; exact TStepIn.same)
+      · exact TStepIn.same
+    · have := startSyncL_t s ns
+      split <;> (rename_i heq; rw [heq] at this; simp only at this ⊢; rw [this]; exact TStepIn.same)
+  | subscribe ns =>
+    simp only [stepRaw]
+    have := step_subscribe_t s.a ns
+    split <;> (rename_i heq; rw [heq] at this; simp only at this ⊢; rw [this]; exact TStepIn.same)
+  | authorImport a raw => exact TStepIn.authors _
+  | authorExport a => exact TStepIn.same
+  | authorDelete a => simp only [stepRaw]; split; exact TStepIn.same; exact TStepIn.authors _
+  | authorList => exact TStepIn.same
+  | authorDefault => exact TStepIn.same
+  | authorSetDefault a => simp only [stepRaw]; cases authorGet s.a.t a <;> exact TStepIn.same
+  | contentHashes => exact TStepIn.same
+  | listDocs => exact TStepIn.same
+
+theorem step_tstep (s : NState) (r : Req) : TStepIn r.tops s.a.t (step s r).1.a.t := by
+  have := stepRaw_tstep s r
+  simp only [step]
+  exact this
+
+/-! ## C05 at the client API -/
+
+theorem tstep_qinv {ops : List TOp} {t t' : T} (h : TStepIn ops t t') (hok : ∀ o ∈ ops, o.Ok) (inv : QInv t) : QInv t' := by
+  cases h with
+  | same => exact inv
+  | op o ho => exact ⟨applyOp_tablesInv t o (hok o ho) inv.inv, applyOp_idxSorted t o inv.idxSorted⟩
+  | authors l => exact ⟨side_tables_inv t _ rfl rfl rfl inv.inv, inv.idxSorted⟩
+
+theorem step_qinv (s : NState) (r : Req) (hw : r.wf) (inv : QInv s.a.t) : QInv (step s r).1.a.t :=
+  tstep_qinv (step_tstep s r) (r.tops_ok hw) inv
+
+theorem qinv_init (a raw : Bytes) : QInv (init a raw).a.t :=
+  ⟨side_tables_inv {} _ rfl rfl rfl tablesInv_empty, List.Pairwise.nil⟩
+
+/-- an invariant of the node's state that every request preserves holds after every history -/
+theorem run_invariant (P : NState → Prop) (hstep : ∀ s r, r.wf → P s → P (step s r).1)
+    (s : NState) (rs : List Req) (hw : ∀ r ∈ rs, r.wf) (h0 : P s) : P (run s rs).1 := by
+  unfold run
+  suffices h : ∀ (acc : NState × List Reply), P acc.1 →
+      P (rs.foldl (fun (acc : NState × List Reply) r => let (s', o) := step acc.1 r; (s', acc.2 ++ [o])) acc).1 from h _ h0
+  induction rs with
+  | nil => intro acc h; exact h
+  | cons r rest ih =>
+    intro acc h
+    simp only [List.foldl_cons]
+    exact ih (fun x hx => hw x (List.mem_cons_of_mem _ hx)) _ (hstep acc.1 r (hw r List.mem_cons_self) h)
+
+theorem node_qinv_reachable (a raw : Bytes) (rs : List Req) (hw : ∀ r ∈ rs, r.wf) :
+    QInv (run (init a raw) rs).1.a.t :=
+  run_invariant (fun s => QInv s.a.t) step_qinv _ rs hw (qinv_init a raw)
+
+/-- **C05 at the client API.** After any history of client requests, `get_many` on an open
+document answers with the specification of the query over the records held; on a document that
+is not open it fails. -/
+theorem node_getMany_eq_spec (a raw : Bytes) (rs : List Req) (hw : ∀ r ∈ rs, r.wf)
+    (ns : Bytes) (hns : ns.length = 32) (q : Query) (hq : ∀ x, q.author = .exact x → x.length = 32) :
+    let s := (run (init a raw) rs).1
+    (step s (.getMany ns q)).2 =
+      match getOpen s.a ns with
+      | none => .act .errNotOpen
+      | some _ => .act (.entries (QuerySpec.spec s.a.t.records ns q)) := by
+  intro s
+  have inv : QInv s.a.t := node_qinv_reachable a raw rs hw
+  simp only [step, stepRaw]
+  cases getOpen s.a ns with
+  | none => rfl
+  | some r => simp only; rw [query_eq_spec inv ns hns q hq]
+
+/-! ## C15 at the client API -/
+
+theorem policies_put (t : T) (e : Entry) : (Tables.put t e).1.policies = t.policies := by
+  unfold Tables.put
+  split
+  · rfl
+  · simp [entryPut]
+
+theorem policies_import (t : T) (ns : Bytes) (kind : Nat) (raw : Bytes) :
+    (importNamespace t ns kind raw).1.policies = t.policies := by
+  unfold importNamespace
+  cases nsGet t ns with
+  | none => rfl
+  | some v => obtain ⟨k0, raw0⟩ := v; simp only; split <;> rfl
+
+theorem policies_peer (t : T) (ns : Bytes) (nanos : Nat) (peer : Bytes) :
+    ((registerUsefulPeer t ns nanos peer).getD t).policies = t.policies := by
+  unfold registerUsefulPeer
+  cases nsGet t ns <;> rfl
+
+theorem getPolicy_remove_other (t : T) (rm ns : Bytes) (hne : ns ≠ rm) :
+    getDownloadPolicy (removeReplica t rm) ns = getDownloadPolicy t ns := by
+  simp only [getDownloadPolicy, removeReplica]
+  rw [Tables.find_filter_ne _ _ _ hne]
+
+/-- the requests that may change a document's download policy -/
+def Req.setsPolicyOf (ns : Bytes) : Req → Prop
+  | .setPolicy ns' _ => ns' = ns
+  | .dropDoc ns' => ns' = ns
+  | _ => False
+
+theorem applyOp_policy_frame (t : T) (o : TOp) (ns : Bytes)
+    (h1 : ∀ p, o ≠ .policy ns p) (h2 : o ≠ .remove ns) :
+    getDownloadPolicy (applyOp t o) ns = getDownloadPolicy t ns := by
+  cases o with
+  | put e => simp only [applyOp, getDownloadPolicy, policies_put]
+  | remove rm =>
+    have : ns ≠ rm := fun h => h2 (by rw [h])
+    exact getPolicy_remove_other t rm ns this
+  | importNs ns' kind raw => simp only [applyOp, getDownloadPolicy, policies_import]
+  | peer ns' nanos peer => simp only [applyOp, getDownloadPolicy, policies_peer]
+  | policy ns' p =>
+    have hne : ns ≠ ns' := fun h => h1 p (by rw [h])
+    simp only [applyOp]
+    cases h : setDownloadPolicy t ns' p with
+    | none => rfl
+    | some t' => exact Tables.policy_set_frames t t' ns' ns p hne h
+
+theorem step_policy_frame (s : NState) (r : Req) (ns : Bytes) (hr : ¬ r.setsPolicyOf ns) :
+    getDownloadPolicy (step s r).1.a.t ns = getDownloadPolicy s.a.t ns := by
+  have h := step_tstep s r
+  generalize (step s r).1.a.t = t' at h ⊢
+  cases h with
+  | same => rfl
+  | authors l => rfl
+  | op o ho =>
+    apply applyOp_policy_frame
+    · intro p heq
+      subst heq
+      cases r <;> simp [Req.tops] at ho
+      next ns' p' => exact hr (by simp [Req.setsPolicyOf, ho.1])
+    · intro heq
+      subst heq
+      cases r <;> simp [Req.tops] at ho
+      next ns' => exact hr (by simp [Req.setsPolicyOf, ho])
+
+/-- **C15 at the client API: a policy persists.** Whatever a client asks afterwards — imports,
+opens and closes, writes, `start_sync`, `leave`, subscriptions, author requests, registrations,
+policies and removals of *other* documents — the policy of `ns` is what it was, as long as none
+of the requests sets the policy of `ns` or removes `ns`. -/
+theorem node_policy_persists (s : NState) (rs : List Req) (ns : Bytes)
+    (hrs : ∀ r ∈ rs, ¬ r.setsPolicyOf ns) :
+    getDownloadPolicy (run s rs).1.a.t ns = getDownloadPolicy s.a.t ns := by
+  unfold run
+  suffices h : ∀ (acc : NState × List Reply),
+      getDownloadPolicy (rs.foldl (fun (acc : NState × List Reply) r => let (s', o) := step acc.1 r; (s', acc.2 ++ [o])) acc).1.a.t ns
+        = getDownloadPolicy acc.1.a.t ns from h _
+  induction rs with
+  | nil => intro acc; rfl
+  | cons r rest ih =>
+    intro acc
+    simp only [List.foldl_cons]
+    rw [ih (fun x hx => hrs x (List.mem_cons_of_mem _ hx))]
+    exact step_policy_frame acc.1 r ns (hrs r List.mem_cons_self)
+
+/-- setting a policy is refused exactly for a document the node does not have; when it is
+accepted, `get_download_policy` returns it -/
+theorem node_setPolicy (s : NState) (ns : Bytes) (p : Policy) :
+    (nsGet s.a.t ns = none → (step s (.setPolicy ns p)).2 = .errNoDocument ∧ (step s (.setPolicy ns p)).1.a.t = s.a.t) ∧
+    (nsGet s.a.t ns ≠ none → (step s (.setPolicy ns p)).2 = .act .ok ∧
+      (step (step s (.setPolicy ns p)).1 (.getPolicy ns)).2 = .policy p) := by
+  constructor
+  · intro h
+    simp only [step, stepRaw, Tables.set_policy_unknown_document s.a.t ns p h]
+    exact ⟨trivial, rfl⟩
+  · intro h
+    cases hs : setDownloadPolicy s.a.t ns p with
+    | none =>
+      unfold setDownloadPolicy at hs
+      cases hn : nsGet s.a.t ns with
+      | none => exact absurd hn h
+      | some v => rw [hn] at hs; cases hs
+    | some t' =>
+      simp only [step, stepRaw, hs]
+      refine ⟨trivial, ?_⟩
+      show Reply.policy (getDownloadPolicy t' ns) = .policy p
+      rw [Tables.policy_set_get s.a.t t' ns p hs]
+
+/-! ## C17 at the client API -/
+
+theorem peers_put (t : T) (e : Entry) : (Tables.put t e).1.peers = t.peers := by
+  unfold Tables.put
+  split
+  · rfl
+  · simp [entryPut]
+
+theorem peers_import (t : T) (ns : Bytes) (kind : Nat) (raw : Bytes) :
+    (importNamespace t ns kind raw).1.peers = t.peers := by
+  unfold importNamespace
+  cases nsGet t ns with
+  | none => rfl
+  | some v => obtain ⟨k0, raw0⟩ := v; simp only; split <;> rfl
+
+theorem peers_policy (t : T) (ns : Bytes) (p : Policy) :
+    ((setDownloadPolicy t ns p).getD t).peers = t.peers := by
+  unfold setDownloadPolicy
+  cases nsGet t ns <;> rfl
+
+theorem filter_filter_ne_eq (l : List (Bytes × Nat × Bytes)) (ns other : Bytes) (hne : other ≠ ns) :
+    (l.filter (fun r => r.1 != ns)).filter (fun r => r.1 == other) = l.filter (fun r => r.1 == other) := by
+  rw [List.filter_filter]
+  apply List.filter_congr
+  intro r _
+  by_cases h : r.1 = other
+  · have : (r.1 != ns) = true := by rw [h]; simp [hne]
+    simp [h, hne]
+  · simp [h]
+
+theorem peersOf_remove_other (t : T) (rm ns : Bytes) (hne : ns ≠ rm) :
+    peersOf (removeReplica t rm) ns = peersOf t ns := by
+  simp only [peersOf, removeReplica]
+  rw [filter_filter_ne_eq _ _ _ hne]
+
+theorem peersOf_setPeersOf_same (t : T) (ns : Bytes) (vs : List (Nat × Bytes)) :
+    peersOf (setPeersOf t ns vs) ns = vs := by
+  simp only [peersOf, setPeersOf, List.filter_append, List.map_append]
+  have h1 : (t.peers.filter (fun r => r.1 != ns)).filter (fun r => r.1 == ns) = [] := by
+    rw [List.filter_filter]
+    apply List.filter_eq_nil_iff.mpr
+    intro r _
+    by_cases h : r.1 = ns <;> simp [h]
+  have h2 : (vs.map (fun v => (ns, v))).filter (fun r => r.1 == ns) = vs.map (fun v => (ns, v)) := by
+    apply List.filter_eq_self.mpr
+    intro r hr
+    obtain ⟨v, _, rfl⟩ := List.mem_map.mp hr
+    simp
+  rw [h1, h2]
+  simp [List.map_map, Function.comp_def]
+
+theorem peersOf_setPeersOf_other (t : T) (ns other : Bytes) (vs : List (Nat × Bytes)) (hne : other ≠ ns) :
+    peersOf (setPeersOf t ns vs) other = peersOf t other := by
+  simp only [peersOf, setPeersOf, List.filter_append, List.map_append]
+  rw [filter_filter_ne_eq _ _ _ hne]
+  have h2 : (vs.map (fun v => (ns, v))).filter (fun r => r.1 == other) = [] := by
+    apply List.filter_eq_nil_iff.mpr
+    intro r hr
+    obtain ⟨v, _, rfl⟩ := List.mem_map.mp hr
+    simp only [beq_iff_eq]
+    exact fun h => hne h.symm
+  rw [h2]; simp
+
+/-- the requests that may change a document's peer list -/
+def Req.setsPeersOf (ns : Bytes) : Req → Prop
+  | .registerPeer ns' _ _ => ns' = ns
+  | .dropDoc ns' => ns' = ns
+  | _ => False
+
+theorem applyOp_peers_frame (t : T) (o : TOp) (ns : Bytes)
+    (h1 : ∀ n p, o ≠ .peer ns n p) (h2 : o ≠ .remove ns) :
+    peersOf (applyOp t o) ns = peersOf t ns := by
+  cases o with
+  | put e => simp only [applyOp, peersOf, peers_put]
+  | remove rm =>
+    have : ns ≠ rm := fun h => h2 (by rw [h])
+    exact peersOf_remove_other t rm ns this
+  | importNs ns' kind raw => simp only [applyOp, peersOf, peers_import]
+  | policy ns' p => simp only [applyOp, peersOf, peers_policy]
+  | peer ns' nanos peer =>
+    have hne : ns ≠ ns' := fun h => h1 nanos peer (by rw [h])
+    simp only [applyOp, registerUsefulPeer]
+    cases nsGet t ns' with
+    | none => rfl
+    | some v => exact peersOf_setPeersOf_other t ns' ns _ hne
+
+theorem step_peers_frame (s : NState) (r : Req) (ns : Bytes) (hr : ¬ r.setsPeersOf ns) :
+    peersOf (step s r).1.a.t ns = peersOf s.a.t ns := by
+  have h := step_tstep s r
+  generalize (step s r).1.a.t = t' at h ⊢
+  cases h with
+  | same => rfl
+  | authors l => rfl
+  | op o ho =>
+    apply applyOp_peers_frame
+    · intro n p heq
+      subst heq
+      cases r <;> simp [Req.tops] at ho
+      next ns' n' p' => exact hr (by simp [Req.setsPeersOf, ho.1])
+    · intro heq
+      subst heq
+      cases r <;> simp [Req.tops] at ho
+      next ns' => exact hr (by simp [Req.setsPeersOf, ho])
+
+/-- a registration for a document the node has: one step of `register_useful_peer` on its list -/
+theorem step_register_known (s : NState) (ns : Bytes) (nanos : Nat) (peer : Bytes) (h : nsGet s.a.t ns ≠ none) :
+    (step s (.registerPeer ns nanos peer)).2 = .act .ok ∧
+    peersOf (step s (.registerPeer ns nanos peer)).1.a.t ns = regStep (peersOf s.a.t ns) nanos peer := by
+  cases hn : nsGet s.a.t ns with
+  | none => exact absurd hn h
+  | some v =>
+    simp only [step, stepRaw, registerUsefulPeer, hn]
+    exact ⟨trivial, peersOf_setPeersOf_same _ _ _⟩
+
+/-- a registration for a document the node does not have fails and changes nothing -/
+theorem step_register_unknown (s : NState) (ns : Bytes) (nanos : Nat) (peer : Bytes) (h : nsGet s.a.t ns = none) :
+    (step s (.registerPeer ns nanos peer)).2 = .errNoDocument ∧ (step s (.registerPeer ns nanos peer)).1.a.t = s.a.t := by
+  simp only [step, stepRaw, Tables.register_unknown_document s.a.t ns nanos peer h]
+  exact ⟨trivial, rfl⟩
+
+/-- the registrations for `ns` among the requests, oldest first -/
+def regsOf (ns : Bytes) : List Req → List (Nat × Bytes)
+  | [] => []
+  | .registerPeer ns' nanos peer :: rest => if ns' = ns then (nanos, peer) :: regsOf ns rest else regsOf ns rest
+  | _ :: rest => regsOf ns rest
+
+/-- the document is not removed by any of the requests -/
+def keeps (ns : Bytes) (rs : List Req) : Prop := ∀ r ∈ rs, r ≠ .dropDoc ns
+
+theorem nsGet_step_known (s : NState) (r : Req) (ns : Bytes) (hk : r ≠ .dropDoc ns) (h : nsGet s.a.t ns ≠ none) :
+    nsGet (step s r).1.a.t ns ≠ none := by
+  have ht := step_tstep s r
+  generalize (step s r).1.a.t = t' at ht ⊢
+  cases ht with
+  | same => exact h
+  | authors l => exact h
+  | op o ho =>
+    cases o with
+    | put e => simp only [applyOp]; rw [Actor.nsGet_put]; exact h
+    | remove rm =>
+      have : ns ≠ rm := by
+        intro heq; subst heq
+        cases r <;> simp [Req.tops] at ho
+        next ns' => exact hk (by rw [ho])
+      simp only [applyOp]; rw [Actor.nsGet_remove_other _ _ _ this]; exact h
+    | importNs ns' kind raw =>
+      simp only [applyOp]
+      by_cases hne : ns = ns'
+      · subst hne
+        unfold importNamespace
+        cases hn : nsGet s.a.t ns with
+        | none => exact absurd hn h
+        | some v =>
+          obtain ⟨k0, raw0⟩ := v
+          simp only
+          split
+          · have := Tables.find_nsInsert_same (ns, 1, raw) s.a.t.namespaces
+            simp only [nsGet]; simp only at this; rw [this]; simp
+          · have := Tables.find_nsInsert_same (ns, k0, raw0) s.a.t.namespaces
+            simp only [nsGet]; simp only at this; rw [this]; simp
+      · rw [Tables.import_frame _ _ _ _ _ hne]; exact h
+    | peer ns' nanos peer =>
+      simp only [applyOp, registerUsefulPeer]
+      cases hn : nsGet s.a.t ns' with
+      | none => exact h
+      | some v => exact h
+    | policy ns' p =>
+      simp only [applyOp, setDownloadPolicy]
+      cases hn : nsGet s.a.t ns' with
+      | none => exact h
+      | some v => exact h
+
+/-- **C17 at the client API.** Whatever else a client asks in between (anything but removing the
+document), the stored peer list of a document the node has is the result of the registrations for
+it alone, applied in order … -/
+theorem node_peers_run (s : NState) (rs : List Req) (ns : Bytes) (hk : keeps ns rs) (h : nsGet s.a.t ns ≠ none) :
+    peersOf (run s rs).1.a.t ns = runRegs (peersOf s.a.t ns) (regsOf ns rs) := by
+  unfold run
+  suffices hh : ∀ (acc : NState × List Reply), nsGet acc.1.a.t ns ≠ none →
+      peersOf (rs.foldl (fun (acc : NState × List Reply) r => let (s', o) := step acc.1 r; (s', acc.2 ++ [o])) acc).1.a.t ns
+        = runRegs (peersOf acc.1.a.t ns) (regsOf ns rs) from hh _ h
+  induction rs with
+  | nil => intro acc _; rfl
+  | cons r rest ih =>
+    intro acc hacc
+    simp only [List.foldl_cons]
+    have hk' : keeps ns rest := fun x hx => hk x (List.mem_cons_of_mem _ hx)
+    have hkr : r ≠ .dropDoc ns := hk r List.mem_cons_self
+    rw [ih hk' _ (nsGet_step_known acc.1 r ns hkr hacc)]
+    by_cases hreg : ∃ nanos peer, r = .registerPeer ns nanos peer
+    · obtain ⟨nanos, peer, rfl⟩ := hreg
+      simp only [regsOf, if_true, runRegs]
+      rw [(step_register_known acc.1 ns nanos peer hacc).2]
+    · have hfr : ¬ r.setsPeersOf ns := by
+        intro hs
+        cases r <;> simp [Req.setsPeersOf] at hs
+        next ns' => exact hkr (by rw [hs])
+        next ns' n p => exact hreg ⟨n, p, by rw [hs]⟩
+      rw [step_peers_frame acc.1 r ns hfr]
+      have : regsOf ns (r :: rest) = regsOf ns rest := by
+        cases r <;> simp only [regsOf]
+        next ns' n p =>
+          have : ns' ≠ ns := fun heq => hreg ⟨n, p, by rw [heq]⟩
+          simp [this]
+      rw [this]
+
+/-- … hence, for registration times that strictly increase, `get_sync_peers` returns the five most
+recently registered distinct peers, most recent first (the list of C17), also through the node. -/
+theorem node_peers_eq_mru5 (s : NState) (rs : List Req) (ns : Bytes) (hk : keeps ns rs) (h : nsGet s.a.t ns ≠ none)
+    (now : Nat) (inv : PeerInv (peersOf s.a.t ns) now) (hinc : Increasing now (regsOf ns rs)) :
+    mru (peersOf (run s rs).1.a.t ns) = mruSpec (mru (peersOf s.a.t ns)) ((regsOf ns rs).map (·.2)) ∧
+    (peersOf (run s rs).1.a.t ns).length ≤ 5 := by
+  rw [node_peers_run s rs ns hk h]
+  exact peers_eq_mru5 _ _ now inv hinc
+
+/-! ## the store actor's invariant (C14) through the node -/
+
+theorem openInv_congr (a a' : AState) (h1 : a'.states = a.states) (h2 : a'.storeOpen = a.storeOpen)
+    (h3 : a'.t.namespaces = a.t.namespaces) (inv : OpenInv a) : OpenInv a' := by
+  refine ⟨fun ns r h => ?_, fun ns h => ?_⟩
+  · have h' : getOpen a ns = some r := by simpa [getOpen, h1] using h
+    obtain ⟨x, y, z⟩ := inv.open_ok ns r h'
+    exact ⟨x, h2 ▸ y, by simpa [nsGet, h3] using z⟩
+  · have := inv.store_ok ns (h2 ▸ h)
+    simpa [getOpen, h1] using this
+
+theorem importThenOpen_openInv (s : NState) (ns : Bytes) (kind : Nat) (raw : Bytes) (inv : OpenInv s.a) :
+    OpenInv (importThenOpen s ns kind raw).1.a := by
+  have h1 := Actor.step_openInv s.a (.importNamespace ns kind raw) inv
+  unfold importThenOpen
+  split
+  · rename_i a1 heq
+    rw [heq] at h1
+    exact Actor.step_openInv a1 (.openR ns false false) h1
+  · rename_i p _
+    exact h1
+
+theorem startSyncL_openInv (s : NState) (ns : Bytes) (inv : OpenInv s.a) : OpenInv (startSyncL s ns).1.a := by
+  unfold startSyncL
+  split
+  · exact inv
+  · have := Actor.step_openInv s.a (.openR ns true true) inv
+    rcases h : Actor.step s.a (.openR ns true true) with ⟨a', r⟩
+    rw [h] at this
+    cases r <;> exact this
+
+theorem unsubscribeLive_openInv (s : NState) (ns : Bytes) (inv : OpenInv s.a) : OpenInv (unsubscribeLive s ns).1.a := by
+  unfold unsubscribeLive
+  split
+  · exact Actor.step_openInv s.a (.unsubscribe ns) inv
+  · cases getOpen s.a ns <;> exact inv
+
+theorem leaveL_openInv (s : NState) (ns : Bytes) (inv : OpenInv s.a) : OpenInv (leaveL s ns).1.a := by
+  unfold leaveL
+  split
+  · simp only
+    split
+    · rename_i a1 heq
+      have h1 : OpenInv a1 := by
+        have := Actor.step_openInv s.a (.setSync ns false) inv
+        rw [show Actor.step s.a (.setSync ns false) = (a1, Reply.ok) from heq] at this
+        exact this
+      have h2 := unsubscribeLive_openInv { s with syncing := s.syncing.filter (· != ns), a := a1 } ns h1
+      split
+      · rename_i s2 heq2
+        rw [heq2] at h2
+        exact Actor.step_openInv s2.a (.close ns) h2
+      · rename_i s2 r2 _ heq2
+        rw [heq2] at h2
+        exact h2
+    · rename_i a1 r1 _ heq
+      have := Actor.step_openInv s.a (.setSync ns false) inv
+      rw [show Actor.step s.a (.setSync ns false) = (a1, r1) from heq] at this
+      exact this
+  · exact inv
+
+theorem foldl_unsubscribe_openInv (l : List (Nat × Bytes × Bool)) (a : AState) (ns : Bytes) (inv : OpenInv a) :
+    OpenInv (l.foldl (fun a _ => (Actor.step a (.unsubscribe ns)).1) a) := by
+  induction l generalizing a with
+  | nil => exact inv
+  | cons x xs ih => simp only [List.foldl_cons]; exact ih _ (Actor.step_openInv a (.unsubscribe ns) inv)
+
+theorem stepRaw_openInv (s : NState) (r : Req) (inv : OpenInv s.a) : OpenInv (stepRaw s r).1.a := by
+  cases r with
+  | create ns raw => exact importThenOpen_openInv s ns 1 raw inv
+  | importNs ns kind raw => exact importThenOpen_openInv s ns kind raw inv
+  | openDoc ns => exact Actor.step_openInv s.a _ inv
+  | closeDoc ns => exact Actor.step_openInv s.a (.close ns) inv
+  | status ns => exact Actor.step_openInv s.a _ inv
+  | dropDoc ns =>
+    simp only [stepRaw]
+    have hl := leaveL_openInv s ns inv
+    split
+    · rename_i s1 heq
+      rw [heq] at hl
+      exact Actor.step_openInv s1.a (.dropReplica ns) hl
+    · rename_i s1 r1 _ heq
+      rw [heq] at hl
+      exact hl
+  | setHash ns e =>
+    simp only [stepRaw]
+    cases authorGet s.a.t e.author with
+    | none => exact inv
+    | some _ =>
+      simp only
+      have h := Actor.step_openInv s.a (.insertLocal ns e) inv
+      split
+      · rename_i a' n heq
+        rw [heq] at h
+        exact foldl_unsubscribe_openInv _ a' ns h
+      · rename_i a' r _ heq
+        rw [heq] at h
+        exact h
+  | getExact ns a k i => exact Actor.step_openInv s.a _ inv
+  | getMany ns q => simp only [stepRaw]; cases getOpen s.a ns <;> exact inv
+  | setPolicy ns p =>
+    simp only [stepRaw]
+    cases h : Tables.setDownloadPolicy s.a.t ns p with
+    | none => exact inv
+    | some t' =>
+      refine openInv_congr s.a _ rfl rfl ?_ inv
+      unfold setDownloadPolicy at h
+      cases hn : nsGet s.a.t ns with
+      | none => rw [hn] at h; cases h
+      | some v => rw [hn] at h; injection h with h; subst h; rfl
+  | getPolicy ns => exact inv
+  | getSyncPeers ns => simp only [stepRaw]; cases getOpen s.a ns <;> exact inv
+  | registerPeer ns nanos peer =>
+    simp only [stepRaw]
+    cases h : Tables.registerUsefulPeer s.a.t ns nanos peer with
+    | none => exact inv
+    | some t' =>
+      refine openInv_congr s.a _ rfl rfl ?_ inv
+      unfold registerUsefulPeer at h
+      cases hn : nsGet s.a.t ns with
+      | none => rw [hn] at h; cases h
+      | some v => rw [hn] at h; injection h with h; subst h; rfl
+  | startSync ns => exact startSyncL_openInv s ns inv
+  | leave ns => exact leaveL_openInv s ns inv
+  | share ns write =>
+    simp only [stepRaw]
+    have := startSyncL_openInv s ns inv
+    split
+    · split
+      · split <;> (rename_i heq; rw [heq] at this; exact this)
+      · exact inv
+    · split <;> (rename_i heq; rw [heq] at this; exact this)
+  | subscribe ns =>
+    simp only [stepRaw]
+    have := Actor.step_openInv s.a (.subscribe ns) inv
+    split <;> (rename_i heq; rw [heq] at this; exact this)
+  | authorImport a raw => exact openInv_congr s.a _ rfl rfl rfl inv
+  | authorExport a => exact inv
+  | authorDelete a => simp only [stepRaw]; split; exact inv; exact openInv_congr s.a _ rfl rfl rfl inv
+  | authorList => exact inv
+  | authorDefault => exact inv
+  | authorSetDefault a => simp only [stepRaw]; cases authorGet s.a.t a <;> exact inv
+  | contentHashes => exact inv
+  | listDocs => exact inv
+
+theorem step_openInv (s : NState) (r : Req) (inv : OpenInv s.a) : OpenInv (step s r).1.a :=
+  stepRaw_openInv s r inv
+
+/-- **C14 through the node.** In every state a docs node can reach by client requests, an open
+document holds at least one handle, is marked open in the store, and its in-memory capability is
+the stored one; the store marks exactly the open documents. -/
+theorem run_invariant' (P : NState → Prop) (hstep : ∀ s r, P s → P (step s r).1)
+    (s : NState) (rs : List Req) (h0 : P s) : P (run s rs).1 := by
+  unfold run
+  suffices h : ∀ (acc : NState × List Reply), P acc.1 →
+      P (rs.foldl (fun (acc : NState × List Reply) r => let (s', o) := step acc.1 r; (s', acc.2 ++ [o])) acc).1 from h _ h0
+  induction rs with
+  | nil => intro acc h; exact h
+  | cons r rest ih =>
+    intro acc h
+    simp only [List.foldl_cons]
+    exact ih _ (hstep acc.1 r h)
+
+theorem node_openInv_reachable (a raw : Bytes) (rs : List Req) : OpenInv (run (init a raw) rs).1.a :=
+  run_invariant' (fun s => OpenInv s.a) step_openInv (init a raw) rs (openInv_init _)
+
+/-! ## C16 at the client API -/
+
+theorem actor_drop_cases (a : AState) (ns : Bytes) :
+    ((Actor.step a (.dropReplica ns)).2 = .ok ∧ (Actor.step a (.dropReplica ns)).1.t = removeReplica a.t ns) ∨
+    ((Actor.step a (.dropReplica ns)).2 = .errNotClosed ∧ (Actor.step a (.dropReplica ns)).1.t = a.t) := by
+  simp only [Actor.step]
+  split
+  · right; exact ⟨rfl, closeR_t a ns⟩
+  · left; refine ⟨rfl, ?_⟩; show removeReplica (closeR a ns).1.t ns = _; rw [closeR_t]
+
+/-- `doc_drop`: `leave`, then the actor's removal -/
+theorem dropDoc_cases (s : NState) (ns : Bytes) :
+    (∃ s1, leaveL s ns = (s1, .ok) ∧ s1.a.t = s.a.t ∧
+      (step s (.dropDoc ns)).2 = .act (Actor.step s1.a (.dropReplica ns)).2 ∧
+      (step s (.dropDoc ns)).1.a.t = (Actor.step s1.a (.dropReplica ns)).1.t) ∨
+    (∃ r1, r1 ≠ .ok ∧ (step s (.dropDoc ns)).2 = .act r1 ∧ (step s (.dropDoc ns)).1.a.t = s.a.t) := by
+  have hl := leaveL_t s ns
+  rcases h : leaveL s ns with ⟨s1, r1⟩
+  rw [h] at hl
+  simp only at hl
+  by_cases hr : r1 = .ok
+  · subst hr
+    left
+    refine ⟨s1, rfl, hl, ?_, ?_⟩ <;> simp only [step, stepRaw, h] <;> rfl
+  · right
+    refine ⟨r1, hr, ?_, ?_⟩
+    · simp only [step, stepRaw, h]
+      try (cases r1 <;> first | rfl | exact absurd rfl hr)
+    · simp only [step, stepRaw, h]
+      try (cases r1 <;> first | exact hl | exact absurd rfl hr)
+
+/-- an acknowledged `drop_doc` has removed the document's rows from every table -/
+theorem node_drop_ok (s : NState) (ns : Bytes) (h : (step s (.dropDoc ns)).2 = .act .ok) :
+    (step s (.dropDoc ns)).1.a.t = removeReplica s.a.t ns := by
+  rcases dropDoc_cases s ns with ⟨s1, _, ht, hr, hs⟩ | ⟨r1, hne, hr, _⟩
+  · rw [hr] at h
+    injection h with h
+    rcases actor_drop_cases s1.a ns with ⟨_, h2⟩ | ⟨h1, _⟩
+    · rw [hs, h2, ht]
+    · rw [h1] at h; cases h
+  · rw [hr] at h
+    injection h with h
+    exact absurd h hne
+
+/-- a refused `drop_doc` (the document is still held open) leaves every table as it was -/
+theorem node_drop_refused (s : NState) (ns : Bytes) (h : (step s (.dropDoc ns)).2 ≠ .act .ok) :
+    (step s (.dropDoc ns)).1.a.t = s.a.t := by
+  rcases dropDoc_cases s ns with ⟨s1, _, ht, hr, hs⟩ | ⟨r1, _, _, hs⟩
+  · rcases actor_drop_cases s1.a ns with ⟨h1, _⟩ | ⟨_, h2⟩
+    · rw [hr, h1] at h; exact absurd rfl h
+    · rw [hs, h2, ht]
+  · exact hs
+
+/-- **C16 at the client API: removal erases the document completely …** After `drop_doc` was
+acknowledged, no table holds a row of the document: no entry, no index row, no head, no
+capability, no peer, no policy — so that `get_download_policy` answers with the default, a
+re-created document starts empty, and the document is no longer listed. -/
+theorem node_drop_erases (s : NState) (ns : Bytes) (hns : ns.length = 32) (inv : QInv s.a.t)
+    (h : (step s (.dropDoc ns)).2 = .act .ok) :
+    let t' := (step s (.dropDoc ns)).1.a.t
+    (∀ e ∈ t'.records, e.ns ≠ ns) ∧ (∀ k ∈ t'.byKey, k.1 ≠ ns) ∧ (∀ r ∈ t'.latest, r.1 ≠ ns) ∧
+    (∀ r ∈ t'.namespaces, r.1 ≠ ns) ∧ (∀ r ∈ t'.peers, r.1 ≠ ns) ∧ (∀ r ∈ t'.policies, r.1 ≠ ns) ∧
+    getDownloadPolicy t' ns = Policy.default ∧ peersOf t' ns = [] := by
+  intro t'
+  have ht : t' = removeReplica s.a.t ns := node_drop_ok s ns h
+  obtain ⟨h1, h2, h3, h4, h5, h6⟩ := remove_erases s.a.t ns hns inv.inv.wf32
+  rw [ht]
+  refine ⟨h1, h2, h3, h4, h5, h6, policy_default_when_unset _ ns h6, ?_⟩
+  simp only [peersOf]
+  have : (removeReplica s.a.t ns).peers.filter (fun r => r.1 == ns) = [] := by
+    apply List.filter_eq_nil_iff.mpr
+    intro r hr
+    simpa using h5 r hr
+  rw [this]; rfl
+
+/-- **… and only it.** Every other document's rows, in every table, are what they were. -/
+theorem node_drop_frames (s : NState) (ns other : Bytes) (hns : ns.length = 32) (inv : QInv s.a.t) (hne : other ≠ ns)
+    (h : (step s (.dropDoc ns)).2 = .act .ok) :
+    let t' := (step s (.dropDoc ns)).1.a.t
+    t'.records.filter (fun e => e.ns == other) = s.a.t.records.filter (fun e => e.ns == other) ∧
+    t'.byKey.filter (fun k => k.1 == other) = s.a.t.byKey.filter (fun k => k.1 == other) ∧
+    t'.latest.filter (fun r => r.1 == other) = s.a.t.latest.filter (fun r => r.1 == other) ∧
+    t'.namespaces.filter (fun r => r.1 == other) = s.a.t.namespaces.filter (fun r => r.1 == other) ∧
+    t'.peers.filter (fun r => r.1 == other) = s.a.t.peers.filter (fun r => r.1 == other) ∧
+    t'.policies.filter (fun r => r.1 == other) = s.a.t.policies.filter (fun r => r.1 == other) ∧
+    t'.authors = s.a.t.authors := by
+  intro t'
+  have ht : t' = removeReplica s.a.t ns := node_drop_ok s ns h
+  rw [ht]
+  exact remove_frames s.a.t ns other hns inv.inv.wf32 hne
+
+/-- **The protected content hashes** (what `gc_protect_task` hands to the blob store) are exactly
+the hashes of the entries held in any document of the node, after every history. -/
+theorem node_hashes_exact (s : NState) (h : Bytes) :
+    (step s .contentHashes).2 = .hashes (contentHashes s.a.t) ∧
+    (h ∈ contentHashes s.a.t ↔ ∃ e ∈ s.a.t.records, e.hash = h) :=
+  ⟨rfl, content_hashes_exact s.a.t h⟩
+
+/-! ## C12 at the client API: client subscriptions -/
+
+/-- every client subscription is held by a document that is open -/
+def SubsInv (s : NState) : Prop := ∀ p ∈ s.apiSubs, (getOpen s.a p.2.1).isSome
+
+theorem step_subsInv (s : NState) (r : Req) : SubsInv (step s r).1 := by
+  intro p hp
+  simp only [step, prune] at hp ⊢
+  exact (List.mem_filter.mp hp).2
+
+/-- **A write is announced to exactly the live subscriptions of its document, and only if it was
+applied.** The reply of a write names the subscriptions that are sent the event: all
+subscriptions of that document whose receiving end still exists when the entry was inserted, none
+when it was refused (read-only, not open, superseded) or the author is unknown. -/
+theorem write_events_exact (s : NState) (ns : Bytes) (e : Entry) :
+    match (step s (.setHash ns e)).2 with
+    | .wrote (.inserted _) subs => subs = (s.apiSubs.filter (fun p => p.2.1 == ns && !p.2.2)).map (·.1)
+    | .wrote _ subs => subs = []
+    | .errAuthorNotFound => True
+    | _ => False := by
+  simp only [step, stepRaw]
+  cases authorGet s.a.t e.author with
+  | none => trivial
+  | some _ =>
+    simp only
+    rcases h : Actor.step s.a (.insertLocal ns e) with ⟨a', r⟩
+    cases r <;> simp
+
+theorem withA_apiSubs (s : NState) (p : AState × Actor.Reply) : (withA s p).1.apiSubs = s.apiSubs := rfl
+
+theorem importThenOpen_apiSubs (s : NState) (ns : Bytes) (kind : Nat) (raw : Bytes) :
+    (importThenOpen s ns kind raw).1.apiSubs = s.apiSubs := by
+  unfold importThenOpen
+  split <;> rfl
+
+theorem startSyncL_apiSubs (s : NState) (ns : Bytes) : (startSyncL s ns).1.apiSubs = s.apiSubs := by
+  unfold startSyncL
+  split
+  · rfl
+  · rcases h : Actor.step s.a (.openR ns true true) with ⟨a', r⟩
+    cases r <;> rfl
+
+theorem unsubscribeLive_apiSubs (s : NState) (ns : Bytes) : (unsubscribeLive s ns).1.apiSubs = s.apiSubs := by
+  unfold unsubscribeLive
+  split
+  · rfl
+  · cases getOpen s.a ns <;> rfl
+
+theorem leaveL_apiSubs (s : NState) (ns : Bytes) : (leaveL s ns).1.apiSubs = s.apiSubs := by
+  unfold leaveL
+  split
+  · simp only
+    split
+    · rename_i a1 heq
+      have h2 := unsubscribeLive_apiSubs { s with syncing := s.syncing.filter (· != ns), a := a1 } ns
+      split
+      · rename_i s2 heq2
+        rw [heq2] at h2
+        exact h2
+      · rename_i s2 r2 _ heq2
+        rw [heq2] at h2
+        exact h2
+    · rfl
+  · rfl
+
+/-- a live subscription stays in the node's books over every request but `drop_doc` of its document … -/
+theorem stepRaw_keeps_sub (s : NState) (r : Req) (id : Nat) (ns : Bytes) (hr : r ≠ .dropDoc ns)
+    (h : (id, ns, false) ∈ s.apiSubs) : (id, ns, false) ∈ (stepRaw s r).1.apiSubs := by
+  cases r with
+  | create ns' raw => simp only [stepRaw]; rw [importThenOpen_apiSubs]; exact h
+  | importNs ns' kind raw => simp only [stepRaw]; rw [importThenOpen_apiSubs]; exact h
+  | openDoc ns' => exact h
+  | closeDoc ns' => exact h
+  | status ns' => exact h
+  | dropDoc ns' =>
+    have hne : ns' ≠ ns := fun heq => hr (by rw [heq])
+    simp only [stepRaw]
+    have hl := leaveL_apiSubs s ns'
+    split
+    · rename_i s1 heq
+      rw [heq] at hl
+      simp only at hl
+      show (id, ns, false) ∈ (markGone s1 ns').apiSubs
+      simp only [markGone, List.mem_map]
+      refine ⟨(id, ns, false), hl ▸ h, ?_⟩
+      have : (ns == ns') = false := beq_false_of_ne (fun hh => hne hh.symm)
+      simp [this]
+    · rename_i s1 r1 _ heq
+      rw [heq] at hl
+      exact hl ▸ h
+  | setHash ns' e =>
+    simp only [stepRaw]
+    cases authorGet s.a.t e.author with
+    | none => exact h
+    | some _ =>
+      simp only
+      split
+      · show (id, ns, false) ∈ s.apiSubs.filter _
+        exact List.mem_filter.mpr ⟨h, by simp⟩
+      · exact h
+  | getExact ns' a k i => exact h
+  | getMany ns' q => simp only [stepRaw]; cases getOpen s.a ns' <;> exact h
+  | setPolicy ns' p => simp only [stepRaw]; cases Tables.setDownloadPolicy s.a.t ns' p <;> exact h
+  | getPolicy ns' => exact h
+  | getSyncPeers ns' => simp only [stepRaw]; cases getOpen s.a ns' <;> exact h
+  | registerPeer ns' nanos peer => simp only [stepRaw]; cases Tables.registerUsefulPeer s.a.t ns' nanos peer <;> exact h
+  | startSync ns' => simp only [stepRaw]; rw [startSyncL_apiSubs]; exact h
+  | leave ns' => simp only [stepRaw]; rw [leaveL_apiSubs]; exact h
+  | share ns' write =>
+    simp only [stepRaw]
+    have := startSyncL_apiSubs s ns'
+    split
+    · split
+      · split <;> (rename_i heq; rw [heq] at this; simp only at this ⊢; rw [this]; exact h)
+      · exact h
+    · split <;> (rename_i heq; rw [heq] at this; simp only at this ⊢; rw [this]; exact h)
+  | subscribe ns' =>
+    simp only [stepRaw]
+    split
+    · exact List.mem_append_left _ h
+    · exact h
+  | authorImport a raw => exact h
+  | authorExport a => exact h
+  | authorDelete a => simp only [stepRaw]; split <;> exact h
+  | authorList => exact h
+  | authorDefault => exact h
+  | authorSetDefault a => simp only [stepRaw]; cases authorGet s.a.t a <;> exact h
+  | contentHashes => exact h
+  | listDocs => exact h
+
+/-- … as long as the document stays open: **a subscription survives every request that leaves its
+document open** (and is then sent the event of every applied write, by `write_events_exact`);
+other subscribers coming and going, other documents being closed or removed, do not affect it. -/
+theorem sub_survives (s : NState) (r : Req) (id : Nat) (ns : Bytes) (hr : r ≠ .dropDoc ns)
+    (h : (id, ns, false) ∈ s.apiSubs) (hopen : (getOpen (step s r).1.a ns).isSome) :
+    (id, ns, false) ∈ (step s r).1.apiSubs := by
+  simp only [step, prune] at hopen ⊢
+  exact List.mem_filter.mpr ⟨stepRaw_keeps_sub s r id ns hr h, hopen⟩
+
+/-! ## non-vacuity: a concrete history -/
+
+section Example
+open Tables
+
+private def nsX : Bytes := List.replicate 32 7
+private def auX : Bytes := List.replicate 32 9
+private def eX : Entry := { ns := nsX, author := auX, key := [1], ts := 5, len := 3, hash := [4] }
+
+/-- create, subscribe, write: the write is applied and announced to the one subscription; then the
+policy is set and read back, a peer registered and listed, the document dropped and gone -/
+example :
+    (run (init auX [0]) [.create nsX [1], .subscribe nsX, .setHash nsX eX, .setPolicy nsX (.nothingExcept []),
+        .getPolicy nsX, .registerPeer nsX 10 [8], .getSyncPeers nsX, .getMany nsX { includeEmpty := true },
+        .closeDoc nsX, .dropDoc nsX, .listDocs, .contentHashes]).2
+      = [.act .ok, .subscribed 0, .wrote (.inserted 0) [0], .act .ok, .policy (.nothingExcept []), .act .ok,
+         .peers (some [[8]]), .act (.entries [eX]), .act .ok, .act .ok, .docs [], .hashes []] := by
+  decide
+
+end Example
 
 end DocNode
